@@ -212,8 +212,8 @@ def build_h3(N):
         sc.freeze_sched(H, S, N)
         H.freeze(S, "txs.0.len", f"((usize){N})")
         H.cvar("plan", "unsigned char", dims=[N], shared=False); H.cvar("calls", "usize", shared=False); H.cvar("start", "usize", shared=False)
-        H.cvar("order_ok", "_Bool", shared=False)
-        H.c(f"calls = 0; order_ok = 1; start = nondet_usize(); __CPROVER_assume(start <= {N});")
+        H.cvar("order_ok", "_Bool", shared=False); H.cvar("txref_checked", "_Bool", shared=False)
+        H.c(f"txref_checked = 0; calls = 0; order_ok = 1; start = nondet_usize(); __CPROVER_assume(start <= {N});")
         for i in range(N):
             H.c(f"plan[{i}] = nondet_uchar(); __CPROVER_assume(plan[{i}] < 5);")
 
@@ -223,6 +223,14 @@ def build_h3(N):
             oki, erri = n.vindex("Ok"), n.vindex("Err")
             e = n.variants[erri][1].fields[0]
             tr_.emit(f"if ({txid} != start + calls) order_ok = 0; calls++; __CPROVER_assume({txid} < {N});")
+            try:
+                txr = tr_.as_ref(args[1])
+            except TranslateError:
+                txr = None
+            if txr is not None and txr.idxs:
+                # the TxEnv handed to transact is the block's element at that same global index
+                tr_.emit(f"if (({txr.idxs[-1]}) != {txid}) order_ok = 0;")
+                tr_.emit("txref_checked = 1;")
             tr_.emit(f"if (plan[{txid}] == 0) {{ {tr_.lv(Loc(n.discr, dest.idxs))} = {oki}; {tr_.lv(Loc(n.variants[oki][1].fields[0].fields[0], dest.idxs))} = 100 + {txid}; }}")
             tr_.emit(f"else {{ {tr_.lv(Loc(n.discr, dest.idxs))} = {erri};")
             tr_.emit(f"  if (plan[{txid}] == 1) {{ {tr_.lv(Loc(e.discr, dest.idxs))} = {e.vindex('Transaction')}; {tr_.lv(Loc(e.variants[e.vindex('Transaction')][1].fields[0].fields[0], dest.idxs))} = 50 + {txid}; }}")
@@ -238,7 +246,8 @@ def build_h3(N):
         ed = H.lv(out, "error.d")
         some, none = H.variant(out, "error", "Some"), H.variant(out, "error", "None")
         ee = H.nav(out, "error.Some.0")
-        H.assert_("order_ok", "transact is called with consecutive global transaction ids from the start boundary")
+        H.assert_("order_ok", "transact is called with consecutive global transaction ids from the start boundary, each with the block's transaction at that index")
+        H.cover("txref_checked", "the transaction reference handed to transact was resolved to a block index")
         # first fatal index
         H.cvar("ff", "usize", shared=False)
         H.c(f"ff = {N};")
